@@ -50,3 +50,55 @@ pub fn shim_sum_u32(v: &Vec<u32>) -> (r: u32)
 /// std: Vec<u8> as io::Write appends and never fails
 pub axiom fn axiom_vec_written(v: Vec<u8>)
     ensures v.written() == v@, v.infallible();
+
+pub proof fn lemma_be32_inverse2(b: Seq<u8>)
+    requires b.len() == 4,
+    ensures be32(be32_val(b)) == b,
+{
+    use vstd::arithmetic::div_mod::lemma_fundamental_div_mod_converse;
+    let x = be32_val(b);
+    let (b0, b1, b2, b3) = (b[0] as int, b[1] as int, b[2] as int, b[3] as int);
+    let n: int = b0 * 0x1000000 + b1 * 0x10000 + b2 * 0x100 + b3;
+    assert(0 <= n <= 0xFFFF_FFFF);
+    assert(x as int == n);
+    lemma_fundamental_div_mod_converse(n, 0x1000000, b0, b1 * 0x10000 + b2 * 0x100 + b3);
+    lemma_fundamental_div_mod_converse(n, 0x10000, b0 * 256 + b1, b2 * 0x100 + b3);
+    lemma_fundamental_div_mod_converse(b0 * 256 + b1, 256, b0, b1);
+    lemma_fundamental_div_mod_converse(n, 0x100, b0 * 0x10000 + b1 * 256 + b2, b3);
+    lemma_fundamental_div_mod_converse(b0 * 0x10000 + b1 * 256 + b2, 256, b0 * 256 + b1, b2);
+    lemma_fundamental_div_mod_converse(n, 256, b0 * 0x10000 + b1 * 256 + b2, b3);
+    assert(be32(x) =~= b);
+}
+
+/// R7 shim: stands for `u32::from_be_bytes(v[v.len() - 4..].try_into().unwrap())`; the `len - 4` stays an obligation
+#[verifier::external_body]
+pub fn shim_be32_tail(v: &Vec<u8>) -> (r: u32)
+    requires v@.len() >= 4,
+    ensures r == be32_val(v@.subrange(v@.len() - 4, v@.len() as int)),
+{ unimplemented!() }
+
+/// R7 shim: stands for `v.drain(0..2);`
+#[verifier::external_body]
+pub fn shim_drain_front2(v: &mut Vec<u8>)
+    requires old(v)@.len() >= 2,
+    ensures final(v)@ == old(v)@.subrange(2, old(v)@.len() as int),
+{ unimplemented!() }
+
+/// R7 shim: stands for `v.drain(from..);`
+#[verifier::external_body]
+pub fn shim_drain_from(v: &mut Vec<u8>, from: usize)
+    requires from <= old(v)@.len(),
+    ensures final(v)@ == old(v)@.subrange(0, from as int),
+{ unimplemented!() }
+
+/// R7 shim: stands for `a.to_vec()` on a 2-byte array
+#[verifier::external_body]
+pub fn shim_to_vec2(a: &[u8; 2]) -> (r: Vec<u8>)
+    ensures r@ == a@,
+{ unimplemented!() }
+
+/// R7 shim: stands for `v.extend(s)` with a byte slice / byte iterator
+#[verifier::external_body]
+pub fn shim_extend(v: &mut Vec<u8>, s: &[u8])
+    ensures final(v)@ == old(v)@ + s@,
+{ unimplemented!() }
